@@ -89,6 +89,15 @@ func (o obs) coq() string {
 
 // ---- running the real backends ----
 
+// openFDs counts the process's open file descriptors (-1 where /proc is not available)
+func openFDs() int {
+	ents, err := os.ReadDir("/proc/self/fd")
+	if err != nil {
+		return -1
+	}
+	return len(ents)
+}
+
 // neighbour is activity on ANOTHER file of the same factory between two operations of the file under test
 // (files are independent: nothing the file under test returns may depend on it): parts are allocated, written,
 // finalized, read back and removed, with bytes (0xEE..) that occur in no generated sequence.
@@ -598,6 +607,9 @@ func main() {
 	}
 	var samples []json.RawMessage
 
+	// the first file operations of a process make the runtime open descriptors of its own (poller): they must not
+	// count as descriptors of the first file under test
+	neighbour(storage.NewFactoryDisk(diskDir), "warmup.bin")
 	for id, ops := range inputs {
 		rf := storage.NewFactoryRAM()
 		fr, _ := rf.NewFile("x")
@@ -626,6 +638,7 @@ func main() {
 			}
 			dist["disk-name-reused"]++
 		}
+		fdsBefore := openFDs()
 		fd, err := df.NewFile(fname)
 		if err != nil {
 			panic(err)
@@ -650,9 +663,19 @@ func main() {
 			fileBytes, ferr = nil, fmt.Errorf("unfinalized: file content not compared")
 		}
 		os.Remove(filepath.Join(diskDir, fname))
+		// every reader has been closed and the file finalized (or removed): no descriptor of it may be left
+		fdsAfter := openFDs()
 
 		want := oracle(ops)
 		inputJSON, _ := json.Marshal(map[string]interface{}{"ops": ops})
+		if fdsBefore >= 0 && fdsAfter > fdsBefore {
+			failures = append(failures, failure{
+				Signature: "C17:disk:descriptor-left-open",
+				What: fmt.Sprintf("disk backend: %d file descriptors open before the file was created, %d after every reader was closed and the file finalized / removed",
+					fdsBefore, fdsAfter),
+				Input: inputJSON,
+			})
+		}
 		removed := false
 		for i, o := range ops {
 			if o.K == "Remove" {
